@@ -148,6 +148,23 @@ def proof_gate(prop):
     return res
 
 
+def coqchk_gate(prop):
+    """thorough tier: the compiled property file and everything it depends on re-checked by the independent
+    checker; its context summary must list no axiom and no assumed guard/positivity/universe condition"""
+    rc, so, se = stages.sh(['timeout', '1500', 'coqchk', '-o', '-silent', '-Q', COQ, 'SM', 'SM.Properties.' + prop],
+                           timeout=1600)
+    out = so + se
+    i = out.find('CONTEXT SUMMARY')
+    summary = ' '.join(out[i:].split()) if i >= 0 else out[-800:]
+    if rc != 0 or i < 0:
+        return {'ok': False, 'why': 'coqchk exited %d' % rc, 'summary': summary}
+    want = ['Axioms: <none>', 'type-in-type: <none>', 'unsafe (co)fixpoints: <none>', 'positivity is assumed: <none>']
+    missing = [w for w in want if w not in summary]
+    if missing:
+        return {'ok': False, 'why': 'context summary lacks ' + '; '.join(missing), 'summary': summary}
+    return {'ok': True, 'why': '', 'summary': summary}
+
+
 # ---------------------------------------------------------------- K2 tie
 
 def split_fields(line):
@@ -243,6 +260,13 @@ def run_check(prop, tier, seed, t0):
     rep = Report(prop, tier, seed)
     spec = PROPS[prop]
     gate = proof_gate(prop)
+    if gate['ok'] and tier == 'thorough':
+        chk = ctx.stage('coqchk_' + prop, lambda: coqchk_gate(prop))
+        gate['coqchk'] = chk['summary']
+        if not chk['ok']:
+            gate['ok'] = False
+            gate['why'] = 'coqchk: ' + chk['why']
+            gate['log'] = chk['summary']
     if not gate['ok']:
         rep.violate('proof', 'proof gate: ' + gate['why'],
                     {'theorems': gate['theorems'], 'log': gate.get('log', ''), 'assumptions': gate['assumptions']},
@@ -284,7 +308,8 @@ def run_check(prop, tier, seed, t0):
         'discharged': gate['discharged'] if gate['ok'] else 0,
         'checker_cmd': 'make -C /verif/coq (coq_makefile, coqc 8.16.1) && coqc Print Assumptions on Properties/%s.v theorems: %s'
                        % (prop, ', '.join(gate['theorems'])),
-        'trusted_base': TRUSTED_BASE + ['Print Assumptions output: ' + gate['assumptions'].replace('\n', ' | ')[:600]],
+        'trusted_base': TRUSTED_BASE + ['Print Assumptions output: ' + gate['assumptions'].replace('\n', ' | ')[:600]] +
+                        (['coqchk -o: ' + gate['coqchk'][:400]] if gate.get('coqchk') else []),
         'theorems': gate['theorems'],
         'evaluations': max(1, rep.evals),
         'distinct_nontrivial': rep.distinct,
